@@ -21,8 +21,8 @@ OWNED = [
 ]
 
 PROPS = {
-    "C01": dict(lemmas=[], not_decided=["hull of stretched Blackman/Kaiser/Interpolated samples (bounded stand-in)"], assumptions=[]),
-    "C02": dict(lemmas=[], not_decided=[], assumptions=["A-NOALIAS list-valued fields (.slots, .eom_blocks) are not aliased between objects"]),
+    "C01": dict(lemmas=["A-mod-of-multiple"], not_decided=["hull of stretched Blackman/Kaiser/Interpolated samples (bounded stand-in)"], assumptions=[]),
+    "C02": dict(lemmas=["A-mod-of-multiple"], not_decided=[], assumptions=["A-NOALIAS list-valued fields (.slots, .eom_blocks) are not aliased between objects"]),
     "C03": dict(lemmas=["L-first-retarget"], not_decided=["fall time of a past pulse is taken in the other channel's current EOM mode or non-EOM mode, whichever is shorter (fall_min)"],
                 assumptions=["A-EOMBW EOM rise time <= channel rise time", "A-DICT-ORDER iteration order of the schedule is unconstrained"]),
     "C10": dict(lemmas=[], not_decided=["phase-jump clause with phase-drift correction (EOM) is stated for drift-free adds only"], assumptions=[]),
